@@ -28,6 +28,7 @@ EXPLANATION = (
     ' (ORDER-PRESERVED) no list-valued field of a node the resolver constructs passes through a sorted or hashed collection or a reordering call: children are evaluated in the order written; (RE-CHECK) no pass hands a node and one of its parts to visiting functions twice on one path (a node lowered twice runs its effects twice); (IRP-def-use) every result an IR op names has been emitted before it on every alternative of the lowering template.'
     ' (DECL-ORDER) `x := .. x ..` resolves its initialiser before the new binder is in scope - only a function literal may see itself; (PIPE special-case) a separate lowering arm for an operator lowers like the general one; (IRP-order guarded arms) what a guarded emitter arm routes through define() is inlined too.'
     ' (IRP-guarded) a guarded arm of the lowering lowers like the general arm for its construct; (IRP-synth) the lowering lowers only nodes it was given; (IRP-final, shared with C06) an early `ret` is wrapped so that statements may follow it.'
+    " (IRP-child) the child a recursive lowering call receives is named by the arm's pattern; (IRP-list) instruction lists are only joined; (VALUE-SEM presence, shared with C18) reading an element yields the element, `false` included."
 )
 UNDECIDED = ("the behaviour of emitted programs (nothing is executed; no reference semantics of Sylt or Lua is modelled), numeric "
              "edge cases, run-time representation beyond these protocol rules, and the semantics of preamble.lua (C18/C19).")
